@@ -505,6 +505,32 @@ func genCase(rng *rand.Rand, p Profile) *Case {
 		k := 2 + rng.Intn(2)
 		c.DurGroups = append(c.DurGroups, CDurGroup{Stops: append([]int(nil), perm[:k]...), Dur: 60 * (1 + rng.Intn(10))})
 	}
+	// arrival-neutral detours: a zero-duration stop x that can be visited between a and b without changing
+	// the arrival at b (the branch where the wait estimates stop walking the route early)
+	if c.Dur != nil && n >= 3 && rng.Intn(3) == 0 {
+		c.feature("neutral-detour")
+		for k := 0; k < 1+rng.Intn(3); k++ {
+			pm := rng.Perm(n)
+			a, x, b := pm[0], pm[1], pm[2]
+			if len(c.DurGroups) > 0 && rng.Intn(2) == 0 {
+				// the detour leaves and re-enters a duration group: the END of b changes, its arrival does not
+				g := c.DurGroups[0].Stops
+				in := map[int]bool{}
+				for _, s := range g {
+					in[s] = true
+				}
+				for _, s := range pm {
+					if !in[s] {
+						a, b, x = g[0], g[1], s
+						break
+					}
+				}
+			}
+			c.Stops[x].Duration = 0
+			c.Dur[a][x] = 0
+			c.Dur[x][b] = c.Dur[a][b]
+		}
+	}
 	// initial stops: a feasible-looking prefix assignment that respects units (unit members together,
 	// in precedence order); sometimes fixed
 	if on(p.Initial, 4) {
